@@ -153,6 +153,11 @@ func (zns *ZnPMServer) StartMaster(connUrl string, cfg ZnPMServerConfig) error {
 	//// read named pipe data to recv msg from child process
 	go zns.readNamedPipe(p)
 
+	// the initial workers are a batch like any other: reserve them before the bookkeeping
+	// goroutine starts, or a request that reaches the first worker while the others are still
+	// being spawned makes it size a second batch on top of this one and exceed MaxProcs
+	zns.refCount = cfg.InitProcs
+
 	//// maintain child state (DO NOT UPDATE child data directly!)
 	go zns.maintainChildState(cfg, ln, p)
 
